@@ -1618,6 +1618,10 @@ dt_dtadd(struct dt_dt_s d, struct dt_dtdur_s dur)
 				dur.d.durtyp = DT_DURD;
 				dur.d.dv = carry;
 				goto dadd;
+			} else if (carry) {
+				/* t-only, hand out all midnights passed,
+				 * within the carry slot's range */
+				d.t.carry = carry > 7 ? 7 : carry < -7 ? -7 : carry;
 			}
 		}
 		break;
